@@ -408,9 +408,67 @@ def plain_sort(rec):
     rec.run('PopulationFilter/sort_times', ['chi._population_filters.PopulationFilter.sort_times'], 'Pκ', go)
 
 
+def ieee_range(rec):
+    """bounded (never counted as proved): the kernel / mixture filters at data with one measurement that every simulated value fits hundreds
+    of nats worse than the others -- the documented value is finite (log of a sum of tiny densities), real arithmetic cannot see a
+    max-shift that is taken over the wrong axis; with and without missing-value padding"""
+    import chi as real
+    from scipy.special import logsumexp as lse
+
+    def ref(cls, y, x):
+        # y (n_ids, n_obs, n_times) with NaN = missing, x (n_sim, n_obs, n_times)
+        n_s = x.shape[0]
+        total = 0.0
+        for r in range(y.shape[1]):
+            for j in range(y.shape[2]):
+                xs = x[:, r, j]
+                ys = y[:, r, j]
+                ys = ys[~np.isnan(ys)]
+                if cls == 'GaussianKDEFilter':
+                    h2 = (4 / 3 / n_s) ** 0.4 * np.var(xs, ddof=1)
+                    for v in ys:
+                        total += lse(-(v - xs) ** 2 / (2 * h2)) - np.log(n_s) - 0.5 * np.log(2 * np.pi * h2)
+                elif cls == 'LogNormalKDEFilter':
+                    lx = np.log(xs)
+                    h2 = (4 / 3 / n_s) ** 0.4 * np.var(lx, ddof=1)
+                    for v in ys:
+                        total += lse(-(np.log(v) - lx) ** 2 / (2 * h2)) - np.log(n_s) - 0.5 * np.log(2 * np.pi * h2) - np.log(v)
+                else:
+                    K = 2
+                    blocks = xs.reshape(K, n_s // K)
+                    mu, var = blocks.mean(axis=1), blocks.var(axis=1, ddof=1)
+                    for v in ys:
+                        total += lse(-(v - mu) ** 2 / (2 * var) - 0.5 * np.log(2 * np.pi * var)) - np.log(K)
+        return float(total)
+    cases = [(cls, outlier, pad) for cls in ('GaussianKDEFilter', 'LogNormalKDEFilter', 'GaussianMixtureFilter') for outlier in (None, 'mild', 'extreme') for pad in (False, True)]
+
+    def one(case):
+        cls, outlier, pad = case
+        rng = np.random.default_rng(3)
+        x = 5.0 + 0.05 * rng.normal(size=(8, 1, 3))
+        y = 5.0 + 0.05 * rng.normal(size=(4, 1, 3))
+        if outlier == 'mild':
+            y[1, 0, 2] = 5.6
+        if outlier == 'extreme':
+            y[1, 0, 2] = 9.0 if cls != 'LogNormalKDEFilter' else 12.0
+        if pad:
+            y = np.concatenate([y, np.full((1, 1, 3), np.nan)], axis=0)
+            y[0, 0, 0] = np.nan
+        want = ref(cls, y, x)
+        flt = getattr(real, cls)(y, **({'n_kernels': 2} if 'Mixture' in cls else {}))
+        got = float(flt.compute_log_likelihood(x))
+        if not (np.isfinite(got) and abs(got - want) <= 1e-6 * max(1.0, abs(want))):
+            return '%s, %s outlier, %s missing values: log-likelihood %r, the documented estimator gives %r' % (cls, outlier or 'no', 'with' if pad else 'without', got, want)
+        return None
+    rec.native_check('ieee.range', ['chi._population_filters.logsumexp', 'chi._population_filters.GaussianKDEFilter.compute_log_likelihood', 'chi._population_filters.LogNormalKDEFilter.compute_log_likelihood',
+                                    'chi._population_filters.GaussianMixtureFilter.compute_log_likelihood'], cases, one,
+                     '3 kernel / mixture filters x {no, mild, extreme (hundreds of nats) outlier} x {complete, missing-value padded}: value against the documented estimator evaluated in log space (scipy logsumexp); '
+                     'distinct by (filter, outlier, padding)', exhaustive=True)
+
+
 def _more_tasks():
     out = [('mixture:K=2', lambda rec: mixture(rec, 2)), ('mixture:K=3', lambda rec: mixture(rec, 3) if rec.tier == 'thorough' else None),
-           ('plain-sort', plain_sort)]
+           ('plain-sort', plain_sort), ('ieee-range', ieee_range)]
     for blocks in [(1, 1), (2, 1), (1, 2), (1, 1, 1), (2, 2), (1, 2, 1)]:
         def run(rec, blocks=blocks):
             if sum(blocks) == 4 and rec.tier == 'quick' and blocks != (1, 2, 1):
